@@ -32,13 +32,14 @@ POOLS = ["QueuePool", "StaticPool", "SingletonThreadPool", "NullPool", "Assertio
 RESETS = ["rollback", "commit", "none"]
 
 # a session = (ending, isolation, work)
-ISOS = [None, "SERIALIZABLE", "AUTOCOMMIT"]
+ISOS = [None, "SERIALIZABLE", "AUTOCOMMIT", "token+SERIALIZABLE", "SERIALIZABLE+AUTOCOMMIT"]  # "a+b": two successive execution_options() calls
 WORKS = ["nothing", "insert", "begin+insert", "insert+begin_nested+insert"]
 ENDINGS = ["close", "commit+close", "exception-in-with-block", "dropped+gc", "invalidate+close", "failed-dbapi-commit+close"]
 E_CLOSE, E_COMMIT, E_EXC, E_GC, E_INVALIDATE, E_FAILCOMMIT = range(6)
 NISO, NWORK, NEND = len(ISOS), len(WORKS), len(ENDINGS)
 # menus: "F" full; "R" reduced (the work shapes that leave most state behind)
 MENU_WORKS = {"F": [0, 1, 2, 3], "R": [3]}
+MENU_ISOS = {"F": [0, 1, 2, 3, 4], "R": [0, 2]}  # restricted menu: default / AUTOCOMMIT only
 
 
 class PropertyViolation(Exception):
@@ -69,7 +70,7 @@ def table(menu: str, fc: int) -> List[Tuple[int, int, int]]:
     """The session alphabet of a menu, ending-major: index -> (ending, isolation, work); without the
     'failed-dbapi-commit+close' ending when ``fc == 0``."""
     endings = [e for e in range(NEND) if fc or e != E_FAILCOMMIT]
-    return [(e, i, w) for e in endings for i in range(NISO) for w in MENU_WORKS[menu]]
+    return [(e, i, w) for e in endings for i in MENU_ISOS[menu] for w in MENU_WORKS[menu]]
 
 
 def _h_pool(n: int, pool: str, reset: str, menus: str, fc: int, e0: int, codes) -> bool:
@@ -77,7 +78,7 @@ def _h_pool(n: int, pool: str, reset: str, menus: str, fc: int, e0: int, codes) 
     DBAPI commit; ``fc == 1``: at least one does.  The ending of the first session is fixed by the slice if
     ``e0 >= 0``."""
     tables = [table(menus[i], fc) for i in range(n)]
-    per_end = NISO * len(MENU_WORKS[menus[0]])
+    per_end = len(MENU_ISOS[menus[0]]) * len(MENU_WORKS[menus[0]])
     lo0, hi0 = (e0 * per_end, (e0 + 1) * per_end) if e0 >= 0 else (0, len(tables[0]))
     ok = (lo0 <= codes[0]) & (codes[0] < hi0)
     for i in range(1, n):
@@ -166,9 +167,17 @@ def _run(pool: str, reset: str, sessions) -> bool:
         inherited = list(raw.pending)  # only possible when dirty_allowed
         autocommit = False
         if ISOS[iso] is not None:
-            conn.execution_options(isolation_level=ISOS[iso])
-            autocommit = ISOS[iso] == "AUTOCOMMIT"
-            if (raw.autocommit, raw.isolation_level) != ((True, fakedb.DEFAULT_ISOLATION) if autocommit else (False, ISOS[iso])):
+            steps = ISOS[iso].split("+")
+            for st in steps:
+                if st == "token":
+                    conn.execution_options(logging_token="tok")  # an unrelated connection-level option first
+                else:
+                    conn.execution_options(isolation_level=st)
+            autocommit = steps[-1] == "AUTOCOMMIT"
+            if autocommit:
+                if not raw.autocommit:
+                    _fail("%s:isolation-level-not-set" % what, _state(raw))
+            elif (raw.autocommit, raw.isolation_level) != (False, steps[-1]):
                 _fail("%s:isolation-level-not-set" % what, _state(raw))
         pending: List[int] = []
         if work in (1, 2, 3):
